@@ -19,7 +19,7 @@ for c in "$@"; do
   echo "=== $id: $c $tier"
   s=$(date +%s)
   $vv/run.sh $c $tier > $vv/out-$c.log 2>&1; rc=$?
-  egrep "^VIOLATION|^KNOWN|^OK|HARNESS|^  [a-z]|^panic|^goroutine 1|UNCONFIRMED|CONFORMANCE" $vv/out-$c.log | cut -c1-600 | head -14; [ $rc -ge 2 ] && tail -15 $vv/out-$c.log | cut -c1-300
+  egrep "^VIOLATION|^KNOWN|^OK|^FOREIGN|HARNESS|^  [a-z]|^panic|^goroutine 1|UNCONFIRMED|CONFORMANCE" $vv/out-$c.log | cut -c1-600 | head -14; [ $rc -ge 2 ] && tail -15 $vv/out-$c.log | cut -c1-300
   echo "    rc=$rc wall=$(( $(date +%s)-s ))s"
   # keep a record next to the seeded change: which state of /verif, which check, verdict, first reported discrepancy
   what=$(grep -A2 -m1 "^VIOLATION" $vv/out-$c.log | sed -n 3p | cut -c1-220)
